@@ -235,6 +235,9 @@ impl Prop for C06 {
     let c = cal();
     match t {
       "days" => {
+        // strided walks on fresh threads (see engine::stride_walks)
+        stride_walks(env, out, "day2term", env.tier.pick(3200, 96000) / nshards as u32, 7000 + shard as u64, 0, (crate::model::NDAYS as i64), 400, &|x| vec![x], &ev);
+        stride_walks(env, out, "time2term", env.tier.pick(1600, 48000) / nshards as u32, 7100 + shard as u64, 0, (crate::model::NDAYS as i64), 400, &|x| vec![x, (x * 7919).rem_euclid(86400)], &ev);
         let (ylo, yhi) = shard_range(9999, shard, nshards);
         let (ylo, yhi) = (ylo as i64 + 1, yhi as i64);
         ensure(ylo - 1, yhi + 1);
